@@ -282,3 +282,50 @@ _enumerated("verif.data.Data.get_axis_descriptions+get_legend#BOUNDED:row-descri
             "five time-like, four location-like and five other axes on a small dataset, with the process in three local time zones (the labels are UTC dates); "
             "names / legend with and without climatology and -leg",
             _descriptors(), ["verif.data.Data.get_axis_descriptions", "verif.data.Data.get_legend", "verif.data.Data.get_names", "verif.data.Data.get_axis_values"])
+
+
+# ------------------------------------------------------------------ the values along each -x dimension (Data.get_axis_values / get_axis_size)
+def _axis_values():
+    import verif.data
+    import verif.location
+    from .axis import BUCKET_SPEC, civil_from_days, local_timezone
+
+    def body():
+        cases = 0
+        times = [1325376000, 1325397600, 1330473600 + 3600, 1330473600 + 7200, 1356998399, -86400 * 400 + 1800, 4102444800 - 86400]
+        leads = [0.0, 6.0, 13.0, 30.5, 47.0, 71.5]
+        locs = [(3, 60.5, 10.25, 100.0), (18, -33.0, 151.0, 5.0), (7, 60.5, -10.25, 100.0)]
+        for tz in ("UTC", "PST8"):
+            with local_timezone(tz):
+                d = object.__new__(verif.data.Data)
+                d.times = _np.array(times, int)
+                d.leadtimes = _np.array(leads)
+                d.locations = [verif.location.Location(*l) for l in locs]
+                want = {"Time": list(times), "Leadtime": list(leads), "Leadtimeday": sorted(set(int(l // 24) for l in leads)), "No": [0],
+                        "Location": [l[0] for l in locs], "Lat": [l[1] for l in locs], "Lon": [l[2] for l in locs], "Elev": [l[3] for l in locs]}
+                for name, spec in BUCKET_SPEC.items():
+                    vals = set()
+                    for t in times:
+                        z, sod = t // 86400, t % 86400
+                        y, m, dd = civil_from_days(z)
+                        vals.add(float(spec(z, sod, y, m, dd)))
+                    want[name] = sorted(vals)
+                for name, w in want.items():
+                    axis = getattr(verif.axis, name)()
+                    cases += 1
+                    try:
+                        got = d.get_axis_values(axis)
+                        n = d.get_axis_size(axis)
+                    except Exception as e:
+                        return cases, {"axis": name, "raised": "%s: %s" % (type(e).__name__, e)}
+                    if [float(x) for x in got] != [float(x) for x in w] or n != len(w):
+                        return cases, {"axis": name, "local-time-zone-of-the-process": tz, "got": [float(x) for x in got], "size": n, "want": [float(x) for x in w]}
+        return cases, None
+    return body
+
+
+_enumerated("verif.data.Data.get_axis_values+get_axis_size#BOUNDED:the-slices-of-every-dimension", ("C11", "C12"),
+            "all 16 -x dimensions on one dataset (7 initialisation times incl. one before 1970 and two in the same hour of a leap day, 6 lead times "
+            "around the 24 h boundaries, 3 locations two of which share a latitude and an elevation), process in UTC and PST8: time-derived "
+            "dimensions = the distinct calendar buckets in ascending order, lead-time day = whole 24 h periods, location-like = one value per location in location order",
+            _axis_values(), ["verif.data.Data.get_axis_values", "verif.data.Data.get_axis_size"])
